@@ -22,9 +22,13 @@
         GetDistributeToBaseLocks, distributeTrackedRewards;  gauge_rollapp.go: CreateRollappGauge,
         calculateRollappGaugeRewards;  gauge.go: AddToGaugeRewards;  hooks.go: AfterEpochEnd
     osmosis x/epochs BeginBlocker (epoch end / start detection, hooks in cache contexts)
-  Not modelled: endorsement gauges and sponsored streams (C16's package), UpdateDistrRecords, fees
-  (charged in the base denom, which is never a reward denom here), the lockup module itself (the lock
-  table is an input: op `locks`), x/rollapp (rollapp owner / launched flag are inputs: op `rollapp`).
+    x/streamer/keeper/keeper_replace_update_distribution.go: UpdateDistrRecords;  gauges_hooks.go: CreatePoolGauge
+        (hooks.go: AfterPoolCreated);  sponsored streams: CreateStream(sponsored), UpdateStreamAtEpochStart
+        re-reading the sponsorship distribution (types/distr_info.go: DistrInfoFromDistribution)
+  Not modelled: endorsement gauges (C16's package), fees (charged in the base denom, which is never a
+  reward denom here), the lockup module itself (the lock table is an input: op `locks`), x/rollapp (rollapp
+  owner / launched flag are inputs: op `rollapp`), x/sponsorship (the current distribution — gauge ids with
+  their voting power, as `GetDistribution` returns it — is an input: op `distribution`).
 -/
 import DymVerif.Base.Dec
 namespace DymVerif.Incent
@@ -115,6 +119,7 @@ structure Stream where
   filled : Nat
   epochCoins : Coins
   ecEmpty : Bool         -- `EpochCoins.Empty()` (no coin at all, as opposed to zero-amount coins)
+  sponsored : Bool := false   -- `Sponsored`: the records are re-read from x/sponsorship at every epoch start
   deriving DecidableEq, Repr, Inhabited
 
 structure Pointer where
@@ -163,6 +168,7 @@ structure State where
   locks : List Lock := []
   rollapps : List Rollapp := []
   halted : Bool := false
+  distr : List Rec := []             -- x/sponsorship's current distribution (`GetDistribution`): gauge id, power
   deriving Repr, Inhabited
 
 inductive Out where
@@ -583,6 +589,14 @@ def activateDue : List Stream → State → Res
         | some a => activateDue rest { s with upcoming := u, active := a }
     else activateDue rest s
 
+def totalWeightOf (rs : List Rec) : Nat := (rs.map (·.weight)).sum
+
+/-- the sponsored part of `UpdateStreamAtEpochStart`: a sponsored stream's `DistributeTo` is overwritten with
+    `DistrInfoFromDistribution(sk.GetDistribution())` (records = the distribution's gauges, total weight =
+    the sum of their powers; an empty distribution, total weight 0, is valid) -/
+def Stream.retarget (st : Stream) (distr : List Rec) : Stream :=
+  if st.sponsored then { st with recs := distr, totalWeight := totalWeightOf distr } else st
+
 /-- `UpdateStreamAtEpochStart` for the active streams of the epoch; `Coins.Sub` may panic -/
 def startStreams : List Stream → State → Res
   | [], s => .ok s
@@ -593,7 +607,7 @@ def startStreams : List Stream → State → Res
       -- uint64 `NumEpochsPaidOver - FilledEpochs`; QuoInt panics on zero
       let re := st.numEpochs - st.filled
       if re = 0 then .error .panic else
-      let st' := { st with epochCoins := Coins.quo remain re, ecEmpty := remain.isZero }
+      let st' := { st.retarget s.distr with epochCoins := Coins.quo remain re, ecEmpty := remain.isZero }
       startStreams rest (setStream s st')
 
 /-- streamer `BeforeEpochStart` -/
@@ -698,8 +712,6 @@ def validateRecs (s : State) : List Rec → Nat → List Nat → Bool
     | none => false
     | some g => if !g.perpetual then false else validateRecs s rs r.gauge (r.gauge :: seen)
 
-def totalWeightOf (rs : List Rec) : Nat := (rs.map (·.weight)).sum
-
 /-- sum over the given streams of coins, and of distributed coins; then `Sub` (may panic) -/
 def toDistribute (ss : List Stream) : Option Coins :=
   Coins.sub? (Coins.sumList (ss.map (·.coins))) (Coins.sumList (ss.map (·.distributed)))
@@ -710,11 +722,14 @@ def moduleToDistribute (s : State) : Option Coins :=
   | some a, some u => some (Coins.add a u)
   | _, _ => none
 
-/-- `CreateStreamProposal`: ValidateBasic + `CreateStream` (non-sponsored) -/
-def createStream (s : State) (coins : Coins) (recs : List Rec) (start epochId numEpochs : Nat) : Out × State :=
+/-- `CreateStreamProposal`: ValidateBasic + `CreateStream`.  A sponsored stream ignores the proposal's
+    records: its `DistributeTo` is `DistrInfoFromDistribution(sk.GetDistribution())`, not validated (no
+    gauge check, total weight 0 allowed) -/
+def createStream (s : State) (sponsored : Bool) (coins : Coins) (recs0 : List Rec) (start epochId numEpochs : Nat) : Out × State :=
   if coins.isZero || numEpochs = 0 then (.invalid, s) else
-  if !validateRecs s recs 0 [] then (.err, s) else
-  if totalWeightOf recs = 0 then (.err, s) else
+  if !sponsored && !validateRecs s recs0 0 [] then (.err, s) else
+  if !sponsored && totalWeightOf recs0 = 0 then (.err, s) else
+  let recs := if sponsored then s.distr else recs0
   match moduleToDistribute s with
   | none => (.panic, s)
   | some alloc =>
@@ -727,7 +742,7 @@ def createStream (s : State) (coins : Coins) (recs : List Rec) (start epochId nu
       let id := s.streams.length + 1
       let st : Stream := { id := id, recs := recs, totalWeight := totalWeightOf recs, coins := coins, distributed := [],
                            start := start', epochId := epochId, numEpochs := numEpochs, filled := 0,
-                           epochCoins := Coins.quo coins numEpochs, ecEmpty := false }
+                           epochCoins := Coins.quo coins numEpochs, ecEmpty := false, sponsored := sponsored }
       match Refs.add s.upcoming start' id with
       | none => (.err, s)
       | some u => (.ok, { s with streams := s.streams ++ [st], upcoming := u })
@@ -761,6 +776,45 @@ def replaceDistr (s : State) (id : Nat) (recs : List Rec) : Out × State :=
     if totalWeightOf recs = 0 then (.err, s) else
     (.ok, setStream s { st with recs := recs, totalWeight := totalWeightOf recs })
 
+/-- the record map of `UpdateDistrRecords` (`recordsMap[GaugeId] = record`), kept sorted by gauge id: the Go
+    code fills a map and then `sort.SliceStable`s its values by gauge id (keys are unique, so the result does
+    not depend on the map's iteration order) -/
+def recPut : List Rec → Rec → List Rec
+  | [], r => [r]
+  | x :: xs, r =>
+    if r.gauge < x.gauge then r :: x :: xs
+    else if r.gauge = x.gauge then r :: xs
+    else x :: recPut xs r
+
+/-- existing records overwritten / extended by the new ones, zero weights dropped, sorted by gauge id -/
+def mergeRecs (old new : List Rec) : List Rec := ((old ++ new).foldl recPut []).filter (·.weight != 0)
+
+/-- `UpdateStreamDistributionProposal` -> `UpdateDistrRecords`: the NEW records are validated, merged into the
+    existing ones, and the result goes through `NewDistrInfo` (validated again, positive total weight) -/
+def updateDistr (s : State) (id : Nat) (recs : List Rec) : Out × State :=
+  match getStream s id with
+  | none => (.err, s)
+  | some st =>
+    if st.isFinished s.now then (.err, s) else
+    if !validateRecs s recs 0 [] then (.err, s) else
+    let merged := mergeRecs st.recs recs
+    if !validateRecs s merged 0 [] then (.err, s) else
+    if totalWeightOf merged = 0 then (.err, s) else
+    (.ok, setStream s { st with recs := merged, totalWeight := totalWeightOf merged })
+
+/-- `CreatePoolGauge` (`Hooks.AfterPoolCreated`): one perpetual asset gauge per lockable duration on the pool's
+    share denom, created by the STREAMER module account with empty coins, starting now; the first failing
+    `CreateAssetGauge` ends the loop (the hook only logs the error: gauges created before it stay) -/
+def poolGaugesLoop (denom : Nat) (hasSupply : Bool) : List Nat → State → Out × State
+  | [], s => (.ok, s)
+  | d :: ds, s =>
+    match createGauge s streamerAddr true denom d hasSupply [] s.now 1 with
+    | (.ok, s') => poolGaugesLoop denom hasSupply ds s'
+    | (e, s') => (e, s')
+
+def createPoolGauges (s : State) (denom : Nat) (hasSupply : Bool) : Out × State :=
+  poolGaugesLoop denom hasSupply lockableDurations s
+
 /-! ## Top-level operations -/
 
 inductive Op where
@@ -773,9 +827,12 @@ inductive Op where
   | rollappGauge (r : Nat)
   | createGauge (owner : Nat) (perpetual : Bool) (denom duration : Nat) (hasSupply : Bool) (coins : Coins) (start numEpochs : Nat)
   | addToGauge (owner gid : Nat) (coins : Coins)
-  | createStream (coins : Coins) (recs : List Rec) (start epochId numEpochs : Nat)
+  | createStream (sponsored : Bool) (coins : Coins) (recs : List Rec) (start epochId numEpochs : Nat)
   | terminateStream (id : Nat)
   | replaceDistr (id : Nat) (recs : List Rec)
+  | updateDistr (id : Nat) (recs : List Rec)
+  | distribution (recs : List Rec)
+  | poolGauges (denom : Nat) (hasSupply : Bool)
   deriving Repr, Inhabited
 
 def setRollapp (l : List Rollapp) (r : Nat) (x : Rollapp) : List Rollapp :=
@@ -797,9 +854,12 @@ def step (s : State) (op : Op) : Out × State :=
   | .rollappGauge r => createRollappGauge s r
   | .createGauge o p d du hs c st n => createGauge s o p d du hs c st n
   | .addToGauge o g c => addToGauge s o g c
-  | .createStream c rs st e n => createStream s c rs st e n
+  | .createStream sp c rs st e n => createStream s sp c rs st e n
   | .terminateStream id => terminateStream s id
   | .replaceDistr id rs => replaceDistr s id rs
+  | .updateDistr id rs => updateDistr s id rs
+  | .distribution rs => (.ok, { s with distr := rs })
+  | .poolGauges d hs => createPoolGauges s d hs
 
 def run (s : State) : List Op → State
   | [] => s
